@@ -31,6 +31,7 @@ RULE = ("One evaluation = one seeded execution: client A (dilation enabled) "
 RULE += (' Peer-link cuts are told to both ends or to one end first (the other learns later).')
 RULE += (' A fifth configuration uses transports with bounded send buffers drained by the scheduler; both sides open subchannels, write 3..200 kB and close the wormhole at once or a little later.')
 RULE += (" In a quarter of the runs one side's application calls close() from inside a subchannel callback (connectionMade / dataReceived / connectionLost).")
+RULE += (' A sixth configuration cuts the peer link one-sidedly several times (the Follower is told to abandon a connection it still believes in) and lets close() land right at that moment in a third of those cases.')
 LEVEL_TEXT = ("Seeded exploration. After faults stop, every close() that was "
               "called completes (closed notification) within 8000 events / "
               "600 simulated seconds; afterwards the closing side owns no "
@@ -56,7 +57,11 @@ def configs(tier):
     # transports have bounded send buffers drained by the scheduler, so that
     # close() finds the peer connection with unsent data (Outbound paused)
     return [{"spake": "stub", "peer": k} for k in PEER_KINDS] + \
-        [{"spake": "stub", "peer": "dilates", "backpressure": True}]
+        [{"spake": "stub", "peer": "dilates", "backpressure": True},
+         # the sixth: peer-link losses that one end learns first (the Leader
+         # asks for a reconnect while the Follower still believes in its
+         # connection: ABANDONING), close() somewhere around them
+         {"spake": "stub", "peer": "dilates", "focus": "abandon"}]
 
 
 class Owner:
@@ -165,7 +170,8 @@ def run_one(seed, tape, opts):
     w.extra_ops = {"sub_connect": dispatch("sub_connect"),
                    "sub_listen": dispatch("sub_listen"),
                    "sub_write": dispatch("sub_write")}
-    backpressure = bool(opts.get("backpressure"))
+    backpressure = bool(opts.get("backpressure")) or \
+        opts.get("focus") == "abandon"
     if backpressure:
         sim.net.autoflush = False
         sim.net.high_water = tape.pick((1000, 65536), "hw")
@@ -215,6 +221,8 @@ def run_one(seed, tape, opts):
     ca.pick_faults(tape, w, ("cut", "server_restart"), 2)
     # peer-link cuts
     l2cuts = [tape.choose(3, "l2cuts")]
+    if opts.get("focus") == "abandon":
+        l2cuts = [2 + tape.choose(3, "l2cuts_f")]
 
     half_dead = []
 
@@ -224,6 +232,8 @@ def run_one(seed, tape, opts):
         # learns later: RECONNECT may reach a Follower that still believes
         # in its connection -> ABANDONING)
         tell = tape.pick((("c", "s"), ("c", "s"), ("c",), ("s",)), "l2tell")
+        if opts.get("focus") == "abandon":
+            tell = tape.pick((("c",), ("s",)), "l2tell_f")
         sim.net.cut(l, tell)
         if len(tell) == 1:
             half_dead.append(l)
@@ -247,6 +257,11 @@ def run_one(seed, tape, opts):
         return evs
     w.extra_fault_events = extra_faults
     w.fault_budget = max(w.fault_budget, 1)
+    if opts.get("focus") == "abandon":
+        # the mailbox connections stay up; the budget is there for the
+        # peer-link cuts only
+        w.fault_kinds = ()
+        w.fault_budget = 8
     close_state = {}
 
     def before_op(c, op):
@@ -261,6 +276,32 @@ def run_one(seed, tape, opts):
     def V(key, clause, detail):
         if not viol:
             viol.append({"key": key, "clause": clause, "detail": detail})
+
+    # focus 'abandon': the application's close() lands right when its
+    # Manager has been told to give up a connection it still believed in
+    traced = {}
+    abandoning = []
+
+    def watch_abandoning():
+        for c in (a, b):
+            m = c.w._boss._D._manager
+            if m is not None and c.name not in traced:
+                traced[c.name] = True
+
+                def tr(old, inp, new, c=c):
+                    if new == "ABANDONING":
+                        abandoning.append(c)
+                try:
+                    m.set_trace(tr)
+                except Exception:
+                    pass
+        while abandoning:
+            c = abandoning.pop()
+            if not c.close_called and tape.choose(3, "close_now"):
+                sim.note("probe.close_while_abandoning")
+                c.do_close()
+    if opts.get("focus") == "abandon":
+        sim.after_step = watch_abandoning
 
     def done():
         return all(c.is_closed for c in (a, b)) and w.scripts_done()
